@@ -287,3 +287,9 @@ def r08_7(ctx):
         ok = sym in seen and sc.order[seen[sym]] < first_use
         ctx.check(ok, "_grid_intg_fine: an expression of %s without %s is rejected" % (sym, coeff), detail="refined samples are NaN (the interpolation polynomial of this family does not exist for the chosen integrator) instead of an error",
                   expected="if depends_on(expr, %s) and stage._method.%s is None (or empty): raise" % (sym, coeff), found="guarded families: %s" % sorted(seen), fi=f, sample={"family": sym, "guarded": sym in seen})
+
+
+@rule("R08.8", min_instances=8, desc="pack order on the refined-sampling path: the values fed to the expression function's p input are in the order Stage.p + Stage.v declares them")
+def r08_8(ctx):
+    from .c01 import check_pack_order_fine
+    check_pack_order_fine(ctx)
